@@ -117,8 +117,22 @@ func (in *Interp) encHasCustomCodec(t types.Type) bool {
 	return false
 }
 
+// isTimeType: time.Time is carried through the codec as an opaque scalar (its text form is outside the claim).
+func isTimeType(t types.Type) bool {
+	n, ok := t.(*types.Named)
+	return ok && n.Obj().Pkg() != nil && n.Obj().Pkg().Path() == "time" && n.Obj().Name() == "Time"
+}
+
 // encIsEmpty: the omitempty test (yaml.v3 semantics; for JSON structs are never empty).
 func (in *Interp) encIsEmpty(v Value, t types.Type, flav encFlavor) bool {
+	if isTimeType(t) {
+		if flav == flavJSON {
+			return false
+		}
+		a := v.(*Agg) // Time{wall uint64, ext int64, loc *Location}: IsZero() <=> sec()==0 && nsec()==0; modelled as all-zero
+		w, e := a.e[0].(*Term), a.e[1].(*Term)
+		return in.decide(And(Eq(w, C(w.w, 0)), Eq(e, C(e.w, 0))))
+	}
 	switch u := t.Underlying().(type) {
 	case *types.Basic:
 		switch x := v.(type) {
@@ -164,6 +178,9 @@ func (in *Interp) encIsEmpty(v Value, t types.Type, flav encFlavor) bool {
 
 // encTree builds the tagged tree of v (static type t).
 func (in *Interp) encTree(v Value, t types.Type, flav encFlavor) *encNode {
+	if isTimeType(t) {
+		return &encNode{kind: encScalar, val: cloneVal(v), vt: t}
+	}
 	if _, isI := t.Underlying().(*types.Interface); !isI && in.encHasCustomCodec(t) {
 		in.abort("encoding codec: type %s has a custom (un)marshaller", t)
 	}
@@ -335,6 +352,15 @@ func (in *Interp) encGeneric(n *encNode, flav encFlavor) Iface {
 
 // encDecode decodes node n into a value of type t; cur is the current value of the target (kept for absent keys).
 func (in *Interp) encDecode(n *encNode, t types.Type, cur Value, flav encFlavor, strict bool) Value {
+	if isTimeType(t) {
+		if n.kind == encNull {
+			return in.zero(t)
+		}
+		if n.kind != encScalar || n.vt == nil || !isTimeType(n.vt) {
+			encFail("cannot unmarshal a non-timestamp into time.Time")
+		}
+		return cloneVal(n.val)
+	}
 	if _, isI := t.Underlying().(*types.Interface); !isI && in.encHasCustomCodec(t) {
 		in.abort("encoding codec: type %s has a custom (un)marshaller", t)
 	}
@@ -573,6 +599,17 @@ func (in *Interp) encUnmarshal(args []Value, flav encFlavor, strict bool, what s
 	}
 	in.store(tp, res)
 	return Iface{}
+}
+
+func init() {
+	// encoding/json.Unmarshal of a codec token (e.g. a document a harness produced with encoding.MarshalYAML): decoded
+	// by json tags, non-strict; anything else (also empty input) does not parse.
+	reg("encoding/json.Unmarshal", func(in *Interp, fn *ssa.Function, args []Value) Value {
+		if len(in.bytesOf(args[0])) == 0 {
+			return in.encError("unexpected end of JSON input")
+		}
+		return in.encUnmarshal(args, flavJSON, false, "JSON")
+	})
 }
 
 func init() {
